@@ -67,7 +67,7 @@ func (m *Machine) doCall(c *Config, call ssa.CallInstruction) (*Config, []*Confi
 	}
 	key := funcKey(callee)
 	if callee.Pkg == m.pkg || (callee.Parent() != nil && callee.Parent().Pkg == m.pkg) {
-		if fc := m.contracts.Funcs[key]; fc != nil && (len(fc.Ensures) > 0 || len(fc.Requires) > 0 || fc.Trusted != "" || fc.HasAssigns) {
+		if fc := m.contracts.Funcs[key]; fc != nil && (len(fc.Ensures) > 0 || len(fc.Requires) > 0 || fc.Trusted != "" || fc.HasAssigns || len(fc.Proves) > 0 || fc.Defines != nil) {
 			return m.contractCall(c, call, callee, fc, args)
 		}
 		if h, ok := extHandlers[key]; ok { // in-package functions with a built-in model (newCodecError)
@@ -180,7 +180,7 @@ func (m *Machine) inlineCall(c *Config, call ssa.CallInstruction, callee *ssa.Fu
 
 func (m *Machine) contractCall(c *Config, call ssa.CallInstruction, callee *ssa.Function, fc *FuncContract, args []Value) (*Config, []*Config) {
 	st := c.st
-	env := &Env{m: m, vars: map[string]CV{}, lets: fc.Lets, cur: st, bound: map[string]CV{}}
+	env := &Env{m: m, vars: map[string]CV{}, lets: fc.Lets, cur: st, bound: map[string]CV{}, atCallSite: true}
 	for i, p := range callee.Params {
 		env.vars[p.Name()] = CV{V: args[i], Signed: isSigned(p.Type()), Typ: p.Type()}
 	}
@@ -237,9 +237,28 @@ func (m *Machine) contractCall(c *Config, call ssa.CallInstruction, callee *ssa.
 		}
 		res = append(res, v)
 	}
+	if fc.Defines != nil && len(res) > 0 {
+		// the result is, by definition, the named spec function of the arguments
+		if cv, err := m.eval(env, fc.Defines); err == nil {
+			res[0] = cv.V
+		} else {
+			m.errs = append(m.errs, fmt.Sprintf("contract of %s: defines: %v", key, err))
+		}
+	}
 	m.bindResults(env, sig, res)
 	env.old = old
-	m.applySets(env, fc, st)
+	if fc.Token != nil && len(res) > 0 {
+		if sl, ok := res[0].(*SliceV); ok {
+			if cv, err := m.eval(env, fc.Token); err == nil {
+				if t, ok := cv.V.(Term); ok && t.Sort == STok {
+					m.sliceTok[sl.Obj] = t
+				}
+			} else {
+				m.errs = append(m.errs, fmt.Sprintf("contract of %s: token: %v", key, err))
+			}
+		}
+	}
+	m.applySets(env, fc.Sets, st)
 	for _, e := range fc.Ensures {
 		g, err := m.evalBool(env, e.Expr)
 		if err != nil {
@@ -248,6 +267,7 @@ func (m *Machine) contractCall(c *Config, call ssa.CallInstruction, callee *ssa.
 		}
 		st.assume(g)
 	}
+	m.applySets(env, fc.Summary, st)
 	if fc.Trusted != "" {
 		st.trust("trusted-contract:" + key)
 	} else {
@@ -291,6 +311,34 @@ func (m *Machine) havocLoc(c *Config, env *Env, loc string) {
 		v := m.ghost(st, loc)
 		if t, ok := v.(Term); ok {
 			st.ghost[loc] = m.syms.fresh(loc, t.Sort)
+		}
+		return
+	}
+	if strings.HasPrefix(loc, "mapof(") && strings.HasSuffix(loc, ")") {
+		// contents of a map held in a field: the field keeps its reference, the contents are unknown afterwards
+		e, err := parseExpr(loc[len("mapof(") : len(loc)-1])
+		if err != nil {
+			m.errs = append(m.errs, "assigns: "+err.Error())
+			return
+		}
+		cv, err := m.eval(env, e)
+		if err != nil {
+			m.errs = append(m.errs, "assigns: "+err.Error())
+			return
+		}
+		ref, ok := cv.V.(Term)
+		if !ok || ref.Sort != "MapRef" {
+			m.errs = append(m.errs, "assigns: "+loc+" is not a map")
+			return
+		}
+		if mc, ok := st.ghost["@map:"+ref.S].(*mapContent); ok {
+			n := &mapContent{ksort: mc.ksort, vsort: mc.vsort,
+				has: m.syms.fresh("map.has", mc.has.Sort), get: m.syms.fresh("map.get", mc.get.Sort), size: m.syms.fresh("map.size", SBV64)}
+			st.assume(BVSge(n.size, BVLitI(0, 64)))
+			st.ghost["@map:"+ref.S] = n
+		} else {
+			// not yet materialised: mark so that a later materialisation is fresh, not the initial contents
+			st.ghost["@mapfresh:"+ref.S] = TTrue
 		}
 		return
 	}
@@ -450,9 +498,21 @@ func (m *Machine) appendBuiltin(c *Config, call ssa.CallInstruction, args []Valu
 	// result: fresh object holding old contents followed by the new ones
 	obj := m.newObj("append", base.Obj.Typ, true, base.Obj.Elem)
 	oldArr := m.loadArr(st, base.Obj)
-	narr := m.copyArr(st, m.syms.fresh("append.arr", ArraySort(SBV64, base.Obj.Elem)), BVLitI(0, 64), oldArr, base.Off, base.Len, base.Obj.Elem)
+	var narr Term
+	if base.Off.IsConst() && base.Off.C.Sign() == 0 {
+		narr = oldArr // arrays are values: positions >= len are overwritten below or never read
+	} else {
+		narr = m.copyArr(st, m.syms.fresh("append.arr", ArraySort(SBV64, base.Obj.Elem)), BVLitI(0, 64), oldArr, base.Off, base.Len, base.Obj.Elem)
+	}
 	if add != nil {
-		narr = m.copyArr(st, narr, base.Len, m.loadArr(st, add.Obj), add.Off, add.Len, base.Obj.Elem)
+		if add.Len.IsConst() && add.Len.C.Int64() <= 8 {
+			aarr := m.loadArr(st, add.Obj)
+			for i := int64(0); i < add.Len.C.Int64(); i++ {
+				narr = Store(narr, BVAdd(base.Len, BVLitI(i, 64)), Select(aarr, BVAdd(add.Off, BVLitI(i, 64))))
+			}
+		} else {
+			narr = m.copyArr(st, narr, base.Len, m.loadArr(st, add.Obj), add.Off, add.Len, base.Obj.Elem)
+		}
 	} else if addStr != nil {
 		narr = m.copyArr(st, narr, base.Len, app(SArr8, "s.arr", *addStr), BVLitI(0, 64), addLen, SBV8)
 	}
@@ -508,8 +568,20 @@ func (m *Machine) pureExternal(c *Config, call ssa.CallInstruction, full string,
 	nres := sig.Results().Len()
 	fname := "X." + sanitize(full)
 	if isReflectSetter(full) {
+		// a setter whose receiver derives from a value allocated in this call (reflect.New,
+		// MakeSlice, MakeMap) writes fresh memory; any other setter is counted in @rset
+		fresh := false
+		if rt, ok := args[0].(Term); ok {
+			for sym := range smtSymbols(rt.S) {
+				if m.cur.freshTerms[sym] {
+					fresh = true
+				}
+			}
+		}
 		m.reflectWrites = append(m.reflectWrites, reflectWrite{fn: c.top.fn, pos: call.Pos(), what: full})
-		st.ghost["@rset"] = BVAdd(m.ghostOr(st, "@rset", BVLitI(0, 64)), BVLitI(1, 64))
+		if !fresh {
+			st.ghost["@rset"] = BVAdd(m.ghostOr(st, "@rset", BVLitI(0, 64)), BVLitI(1, 64))
+		}
 		m.bindCallResult(c, call, nil)
 		return c, nil
 	}
@@ -532,7 +604,7 @@ func (m *Machine) pureExternal(c *Config, call ssa.CallInstruction, full string,
 	var res []Value
 	for i := 0; i < nres; i++ {
 		rt := sig.Results().At(i).Type()
-		res = append(res, m.uninterpResult(st, fmt.Sprintf("%s#%d", fname, i), ats, rt, functional))
+		res = append(res, m.uninterpResult(st, fmt.Sprintf("%s.r%d", fname, i), ats, rt, functional))
 	}
 	if allocExternals[full] && nres == 1 {
 		if t, ok := res[0].(Term); ok {
@@ -579,7 +651,11 @@ func (m *Machine) uninterpResult(st *State, fname string, args []Term, rt types.
 			}
 			m.uninterpUsed[dn] = true
 			m.uninterpNames[sig] = dn
-			m.syms.declareFun(dn, asorts, s)
+			if pf, ok := m.prelude.Funcs[dn]; ok && len(pf.Params) == len(asorts) && pf.Ret == s {
+				// declared (with its axioms) in the reflection prelude
+			} else {
+				m.syms.declareFun(dn, asorts, s)
+			}
 		}
 		if len(args) == 0 {
 			return Sym(dn, s)
